@@ -34,19 +34,6 @@ theorem NS.getObj (a : Nat) : NS (IM.getObj a) := by
   intro st; simp only [IM.getObj]; split <;> rfl
 theorem NS.setSlot (t : Nat) (v : Env × Env) : NS (IM.setSlot t v) := fun _ => rfl
 theorem NS.getSlot (t : Nat) : NS (IM.getSlot t) := fun _ => rfl
-theorem NS.applyErr {α} (b : Bool) {m : IM α} (hm : NS m) : NS (IM.applyErr b m) := by
-  intro st
-  have h := hm st
-  unfold IM.applyErr
-  generalize m st = r at h
-  obtain ⟨fl, r⟩ := r
-  cases r with
-  | ok v => exact h
-  | error e =>
-    cases e <;> simp only [] <;> first | exact h | skip
-    simp only [Flags.or] at h ⊢
-    simp [h]
-
 /-- basic steps, tried in order -/
 macro "ns_basic" : tactic => `(tactic| first
   | exact NS.ret _ | exact NS.thr _ | exact NS.lift _ | exact NS.single _ | exact NS.alloc _
@@ -63,12 +50,6 @@ theorem ns_checkArity (a n : Nat) : NS (checkArity a n) := by
   unfold checkArity
   apply NS.bnd (NS.getObj _); intro o
   split <;> ns_basic
-
-omit hs in
-theorem ns_noteArity (a n : Nat) : NS (noteArity a n) := by
-  unfold noteArity
-  apply NS.bnd (NS.getObj _); intro o
-  exact NS.flag _ rfl
 
 theorem ns_currentVars (o : FObj) : NS (currentVars cfg o) := by
   unfold currentVars
@@ -111,8 +92,7 @@ theorem ns_partialApply (c : ICtx) (D : Env) (a : Nat) (args : List (Option Expr
   unfold partialApply
   apply NS.bnd (NS.getObj _); intro o
   split
-  · apply NS.bnd (NS.flag _ rfl); intro _
-    apply NS.bnd (ns_currentVars cfg hs o); intro vars
+  · apply NS.bnd (ns_currentVars cfg hs o); intro vars
     apply NS.bnd (ns_evalArgs ev hev c _ _); intro r
     exact NS.bnd (NS.alloc _) (fun _ => NS.ret _)
   · exact NS.thr _
@@ -123,28 +103,9 @@ theorem ns_funArgEval (c : ICtx) (D : Env) (f : Expr) : NS (funArgEval ev c D f)
   exact NS.bnd (hev _ _ _) (fun v => NS.bnd (NS.single _) (fun _ => NS.ret _))
 
 omit hs in
-theorem ns_funArg (c : ICtx) (D : Env) (f : Expr) : NS (funArg ev c D f) := by
-  cases f
-  case fnE t ps body =>
-    simp only [funArg]; exact NS.bnd (NS.alloc _) (fun _ => NS.ret _)
-  all_goals
-    simp only [funArg]
-    exact ns_funArgEval ev hev c D _
-
-omit hs in
-theorem ns_funArgNote (c : ICtx) (D : Env) (f : Expr) (n : Nat) : NS (funArgNote ev c D f n) := by
-  unfold funArgNote
-  exact NS.bnd (ns_funArg ev hev c D f) (fun fa => NS.bnd (ns_noteArity _ _) (fun _ => NS.ret _))
-
-omit hs in
 theorem ns_funArgCheck (c : ICtx) (D : Env) (f : Expr) (n : Nat) : NS (funArgCheck ev c D f n) := by
   unfold funArgCheck
-  exact NS.bnd (ns_funArg ev hev c D f) (fun fa => NS.bnd (ns_checkArity _ _) (fun _ => NS.ret _))
-
-omit hs in
-theorem ns_funArgEvalNote (c : ICtx) (D : Env) (f : Expr) (n : Nat) : NS (funArgEvalNote ev c D f n) := by
-  unfold funArgEvalNote
-  exact NS.bnd (ns_funArgEval ev hev c D f) (fun fa => NS.bnd (ns_noteArity _ _) (fun _ => NS.ret _))
+  exact NS.bnd (ns_funArgEval ev hev c D f) (fun fa => NS.bnd (ns_checkArity _ _) (fun _ => NS.ret _))
 
 omit hs in
 theorem ns_forLoop (c : ICtx) (x : Nat) (b : Expr) : ∀ (is : Seq) (D : Env) (acc : Seq), NS (forLoop ev c x b D acc is)
@@ -284,11 +245,11 @@ theorem ns_step (e : Expr) (c : ICtx) (D : Env) : NS (step cfg ev e c D) := by
     exact NS.bnd (hev _ _ _) (fun _ => ns_mapLoop ev hev _ _ _ _ _ _ _)
   | forEach s f =>
     simp only [step]
-    exact NS.bnd (ns_funArgNote ev hev _ _ _ _) (fun _ => NS.bnd (hev _ _ _)
+    exact NS.bnd (ns_funArgCheck ev hev _ _ _ _) (fun _ => NS.bnd (hev _ _ _)
       (fun _ => ns_hofForEach cfg hs ev hev _ _ _ _ _))
   | filter s f =>
     simp only [step]
-    exact NS.bnd (ns_funArgNote ev hev _ _ _ _) (fun _ => NS.bnd (hev _ _ _)
+    exact NS.bnd (ns_funArgCheck ev hev _ _ _ _) (fun _ => NS.bnd (hev _ _ _)
       (fun _ => ns_hofFilter cfg hs ev hev _ _ _ _ _))
   | foldL s z f =>
     simp only [step]
@@ -307,17 +268,22 @@ theorem ns_step (e : Expr) (c : ICtx) (D : Env) : NS (step cfg ev e c D) := by
     · exact NS.bnd (hev _ _ _) (fun _ => ns_hofPairs cfg hs ev hev _ _ _ _ _)
   | sortK s f =>
     simp only [step]
-    apply NS.bnd (ns_funArgEvalNote ev hev _ _ _ _); intro fa
+    apply NS.bnd (ns_funArgCheck ev hev _ _ _ _); intro fa
     apply NS.bnd (hev _ _ _); intro xs
     split
     · exact NS.ret _
-    · exact NS.bnd (ns_hofKeys cfg hs ev hev _ _ _ _ _) (fun _ => NS.ret _)
+    · apply NS.bnd (ns_hofKeys cfg hs ev hev _ _ _ _ _); intro ks
+      split
+      · exact NS.ret _
+      · exact NS.thr _
   | apply f ms =>
     simp only [step]
-    apply NS.bnd (ns_funArg ev hev _ _ _); intro fa
+    apply NS.bnd (ns_funArgEval ev hev _ _ _); intro fa
     apply NS.bnd (ns_evalList ev hev _ _ _); intro vals
     apply NS.bnd (NS.getObj _); intro o
-    exact NS.applyErr _ (ns_callFn cfg hs ev hev _ _ _ _)
+    split
+    · exact ns_callFn cfg hs ev hev _ _ _ _
+    · exact NS.thr _
 
 end
 
